@@ -87,7 +87,12 @@ def run_optable(prop):
             for o in sobls:
                 o.props = set(o.props) | {"C02"}
                 battery_of[o.role] = stateflowlemmas.battery
-            tobls, tfns = tobls + sobls, sorted(set(tfns) | set(sfns))
+            import falliblelemmas
+            fobls, ffns = falliblelemmas.obligations(S)
+            for o in fobls:
+                battery_of[o.role] = falliblelemmas.battery
+            tobls, tfns = tobls + sobls + fobls, sorted(set(tfns) | set(sfns) | set(ffns))
+            ev.cov["bounds"].append("Op::type_info fallibility lemma (all opcodes, no bound): the fallibility of every TypeDef is tracked as a boolean term; kinds uninterpreted")
             ev.cov["bounds"].append("Op::type_info state-flow lemma (all opcodes, no bound): operand constants are read in the state in which the operand is evaluated")
         ev.cov["functions_encoded"] += [f"{n} [mir sha256:{h}]" for n, h in tfns]
         refuted = {}
